@@ -62,8 +62,9 @@ def expand(scratch):
 DIRECTIVE = re.compile(r"^%(\w+)\s*(.*)$")
 
 
-def parse_vc(path):
+def parse_vc(path, _seen=None):
     """contract unit file -> dict(req, prelude, items{name: {spec, body_start, loops{k:{spec,body_start,body_end,after}}}}, trusted, probes)"""
+    _seen = _seen if _seen is not None else set()
     vc = dict(req=[], prelude=[], items={}, trusted=[], probes=[], order=[], uses=[])
     cur = None   # (list to append lines to)
     item = None
@@ -76,7 +77,11 @@ def parse_vc(path):
             vc["uses"].append("use " + m.group(2).strip().rstrip(";") + ";")
             continue
         if m and m.group(1) == "import":
-            sub = parse_vc(os.path.join(VERIF, "contracts", m.group(2).strip() + ".vc"))
+            uname = m.group(2).strip()
+            if uname in _seen:
+                continue
+            _seen.add(uname)
+            sub = parse_vc(os.path.join(VERIF, "contracts", uname + ".vc"), _seen)
             vc["req"] += [r for r in sub["req"] if r not in vc["req"]]
             vc["prelude"] += sub["prelude"]
             for k, v in sub["items"].items():
@@ -202,7 +207,7 @@ def assemble(k2v_out, vc, unit):
     for name in vc["items"]:
         if name not in seen:
             problems.append("contract for `%s` has no extracted function (anchor lost: renamed or removed in /repo?)" % name)
-    prelude = open(PRELUDE).read() + "\n" + open(os.path.join(VERIF, "verus", "utf8.rs")).read()
+    prelude = open(PRELUDE).read() + "\n" + open(os.path.join(VERIF, "verus", "utf8.rs")).read() + "\n" + open(os.path.join(VERIF, "verus", "pattern.rs")).read()
     lines = []
     lines += ["// generated by /verif/lib/vrun/verus.py for unit %s — do not edit" % unit,
               "#![allow(unused_imports, unused_variables, unused_mut, unused_assignments, dead_code, unused_parens, unused_braces, unreachable_code, non_snake_case)]",
